@@ -48,9 +48,9 @@ type sessD2 struct {
 	M map[string]sessD4 `json:"m"`
 }
 type sessD1 struct {
-	D  sessD2  `json:"d"`
-	P  *sessD2 `json:"p"`
-	F0 int     `json:"f0"`
+	D                                                                                         sessD2  `json:"d"`
+	P                                                                                         *sessD2 `json:"p"`
+	F0                                                                                        int     `json:"f0"`
 	F1, F2, F3, F4, F5, F6, F7, F8, F9, F10, F11, F12, F13, F14, F15, F16, F17, F18, F19, F20 int
 	G1, G2, G3, G4, G5, G6, G7, G8, G9, G10, G11, G12, G13, G14, G15, G16, G17, G18, G19, G20 string
 	H1, H2, H3, H4, H5, H6, H7, H8, H9, H10, H11, H12, H13, H14, H15                          float64
